@@ -271,7 +271,7 @@ impl BinOpCode {
             BinOpCode::Add => left.wrapping_add(right),
             BinOpCode::Sub => left.wrapping_sub(right),
             BinOpCode::Mul => left.wrapping_mul(right),
-            BinOpCode::Div => left.wrapping_div(right),  // FIXME: handle divide-by-zero
+            BinOpCode::Div => left.wrapping_div(right),  // division by zero is rejected in apply()
             BinOpCode::Or =>  left | right,
             BinOpCode::Xor => left ^ right,
             BinOpCode::And => left & right,
@@ -326,6 +326,9 @@ impl BinOpCode {
             BinOpKind::BooleanCombine | BinOpKind::BooleanFromEqualWidth =>
                 WireWidth::Bits(1),
         };
+        if self == BinOpCode::Div && right.bits == 0 {
+            return Err(Error::DivisionByZero());
+        }
         Ok(left.op(right, |l, r| self.apply_raw(l, r), final_width))
     }
 }
